@@ -20,6 +20,7 @@ RULE = ('fault-free worlds (0/1/many tests per layer); seeds from {0, negative, 
         'child; the reported seed reproduces the order of every process of the original run. '
         'distinct = digest of hook sequences + option keys; non-trivial = a layer with >= 2 tests '
         'was shuffled')
+RULE += (' ' + 'Later additions: test objects with countTestCases() != 1; foreign draws from the module-level random generator between the lines of shuffle.py.')
 SEED_RE = re.compile(r'Tests were shuffled using seed number (-?\d+)\.')
 ASSUMPTIONS = ['"on every supported Python version" is checked on CPython 3.12.1 only']
 
